@@ -17,6 +17,11 @@ CONSTANTS
   BatchSizes = {}
   UnstashNs = {1}
   HandlerIds = {1, 2}
+  Kinds = {}
+  Keys = {1}
+  SrcOpts = {}
+  MaxBatch = 3
+  Errnos = {}
   Targets = {"A"}
   AutoVals = {TRUE, FALSE}
   Senders = {"B"}
